@@ -144,10 +144,16 @@ func init() {
 
 func features(ser string) sqlgen.Features {
 	f := sqlgen.AllFeatures()
+	f.Merge = hx.Allowed("c06.merge")
+	f.DDL = hx.Allowed("c06.ddl")
+	f.QuotedDDLNames = hx.Allowed("c06.ddl_quoted_names")
+	f.IndexNulls = hx.Allowed("c06.index_nulls")
 	if ser == "cli" && !hx.Allowed("c06.cli.unimplemented_clauses") {
 		// listed finding: the CLI formatter's own statement printers drop clauses
 		// they do not implement; steer the cli serialiser around exactly those
 		f.NoDistinctOn, f.NoFetch, f.NoForClause, f.NoReturning, f.NoOnConflict, f.NoDMLWith, f.NoMaterialized = true, true, true, true, true, true, true
+		// ... nor table constraints, index methods and predicates, TRUNCATE/REFRESH, or quoting in DDL and MERGE
+		f.DDL, f.Merge = false, false
 	}
 	return f
 }
